@@ -161,6 +161,12 @@ PROPS = {
         'functions': SCHED_CORE + SCHED_CELL + ['treadmill.scheduler.loader:Loader.adjust_server_state'],
         'replay': 'scheduler.py',
         'assumptions': SCHED_ASSUME + [
+            'fail-over half: Loader.adjust_server_state is under contract over the ghost store (c08_loader): a server recorded '
+            'as frozen is frozen after a reload, no presence => down, a restored down keeps the time it was entered; the '
+            'stored record {state, since} is an opaque payload (projections any_get, decoders tok_state / tok_real, `not '
+            'payload` = tok_empty - uninterpreted, a stored state is assumed to be a member of State); Backend.get_default '
+            'does not say what is returned for a missing node, so the clause "present => up" is proved for an existing '
+            'record only; _record_server_state is an assumed summary',
             'proved per pass of the cycle (each pass has the clause as its own postcondition): inactive-server pass '
             'removes an instance only from a down server whose since + retention <= clock (or retention None) or a '
             'frozen server when marked unschedule; blacklist pass only blacklisted ones; placement walk never takes '
@@ -185,8 +191,10 @@ PROPS = {
             'never both create and delete for one application in one evaluation: the two call sites assert '
             'count > current and count < current for the same grouped/monitors maps, and a dict iteration visits '
             'each key once (dependency contract of dict iteration)',
-            'monitor records are valid on entry (count >= 0, rate == 2*count/3600, 0 <= available <= 2*count, '
-            'last_update <= now): what _monitor_data_watch installs; the nested watch closures are not executed',
+            'monitor records are valid on entry of reevaluate (count >= 0, rate == 2*count/3600, 0 <= available <= 2*count, '
+            'last_update <= now): PROVED to be what the watch handler _run_sync._monitor_data_watch installs (under contract: '
+            'installs_valid_record; yaml.load is a dependency returning a mapping whose count is a non-negative integer); the '
+            'other closure that writes state["monitors"], _appmonitors_watch, only removes records and is not under contract',
             'state["suspended"] is updated through an alias in the real code; the model updates a local copy '
             '(no clause of this check depends on the write-back)',
             'the history clause (created_total bounded by the rate budget over time) and the instance API quota '
@@ -543,8 +551,10 @@ PROPS = {
             'attributes are sets (no trait listed twice in one reservation, no two limits for one trait)',
             'utils.cpu_units / utils.size_to_bytes return cpu_val / size_val of a schema-valid string '
             '(their own contracts are discharged under C01 units, assumed here)',
-            'the reservation create/update closures call _check_capacity before writing (read off the source; '
-            'closures inside API.__init__ are not executed symbolically)',
+            'reservation update (closure API._ReservationAPI.update) is under contract: the directory write '
+            '(AdminCellAlloc.update) is reached only in a state where fits_all holds for the request (call-site clause); '
+            'reservation create is NOT under contract (its plugin loop rebinds the request): that it calls _check_capacity '
+            'before writing is read off the source only',
             'the directory content is read once per request (no concurrent writer between check and write)',
         ],
         'trusted': ['json-schema validation of requests (source of valid_cpu/valid_size preconditions)'],
